@@ -166,6 +166,8 @@ func (co *compiler) literalPrefix() (prefix []byte, allLiteral bool) {
 			if i != len(co.prog)-2 { // immediately before final opDoneSave1
 				return prefix, false
 			}
+			// may not be the end of the source e.g. abc\Z(?i)
+			co.rightAnchor = true
 		case opDoneSave1:
 			return prefix, allLiteral
 		default:
